@@ -9,6 +9,7 @@
 -/
 import EG.Driver.ShapeView
 import EG.Model.ImageRaw
+import EG.Model.TextLayout
 import EG.Model.Checked
 import EG.Model.CheckedShapes
 import EG.Model.CheckedLine
@@ -275,11 +276,79 @@ private def scaleImage (t : Toks) : Option String :=
     | some n1, some n2 => some s!"ok n={n1 + n2} some={some_} alloc=0"
     | _, _ => none
 
+/-- `scale.reject sub x y w h`: `sub_image(area)` of a 5 x 3 one-bit image (bytes `0x5A`), its box, and what the
+native `Null` target is offered by drawing it and its nested `sub_image(area)`. The other `scale.reject` kinds
+print only what the harness itself computed from the op (`inside=`), or need the recording target
+(`drawsub`): no model side. -/
+private def scaleRejectSub (t : Toks) : Option String :=
+  let (x, t) := t.int
+  let (y, t) := t.int
+  let (w, t) := t.nat
+  let (h, _) := t.nat
+  match Img.ImageRaw.new 1 .be [90, 90, 90] ⟨5, 3⟩ with
+  | .error _ => none
+  | .ok im =>
+    let area : Rect := ⟨⟨x, y⟩, ⟨w, h⟩⟩
+    let s1 := (Img.Drawable.raw im).subImage area
+    let s2 := s1.subImage area
+    let calls := (Img.Image.new s1 ⟨1, 1⟩).draw ++ (Img.Image.new s2 ⟨1, 1⟩).draw
+    match offeredSum true calls with
+    | some n => some s!"ok bb={fmtRect s1.boundingBox} n={n}"
+    | none => none
+
+/-- `scale.text <font 0..3|null> <baseline> <align> <lh kind> <lh value> <colour mask> x y <codepoints>`. Served when
+the result does not depend on glyph bitmaps (which are not part of the op): text AND background colour set
+(every glyph is one `fill_contiguous` of the whole cell) or neither set (decorations only). With exactly one of
+the two the number of pixels offered is the number of on / off bits of the glyphs: `skip`. The null font of a
+builder without `font()` is not in the generated font table: `skip`. -/
+private def scaleText (t : Toks) : Option String :=
+  let (font, t) := t.str
+  let (bl, t) := t.nat
+  let (al, t) := t.nat
+  let (lhk, t) := t.nat
+  let (lhv, t) := t.nat
+  let (mask, t) := t.nat
+  let (pos, t) := t.pt
+  let (cps, _) := t.natList
+  let both := mask % 4 == 3
+  let neither := mask % 4 == 0
+  if font == "null" || !(both || neither) then none else
+  let (mod_, name) := match font with
+    | "0" => ("ascii", "FONT_4X6")
+    | "1" => ("ascii", "FONT_6X10")
+    | "2" => ("ascii", "FONT_10X20")
+    | _ => ("iso_8859_1", "FONT_9X18_BOLD")
+  match Generated.fontTable.find? (fun r => r.module == mod_ && r.name == name) with
+  | none => none
+  | some r =>
+    let f := Font.fontOfRec r
+    let rgb := fun (r g b : Nat) => r * 2048 + g * 32 + b
+    let st : Font.Style :=
+      ⟨if mask % 2 == 1 then some (rgb 1 2 3) else none,
+       if mask / 2 % 2 == 1 then some (rgb 3 2 1) else none,
+       if mask / 4 % 2 == 1 then .textColor else .none,
+       if mask / 8 % 2 == 1 then .custom (rgb 9 9 9) else .none⟩
+    let lh : TextLayout.LineHeight :=
+      if lhk == 0 then .percent 100 else if lhk == 1 then .pixels lhv else .percent lhv
+    let b : Font.Baseline := match bl with | 0 => .top | 1 => .bottom | 2 => .middle | _ => .alphabetic
+    let a : TextLayout.Alignment := match al with | 0 => .left | 1 => .center | _ => .right
+    let tx : TextLayout.Text := ⟨cps, pos, st, ⟨a, b, lh⟩⟩
+    let (calls, next) := TextLayout.draw f (fun _ => false) tx
+    match offeredSum false calls, offeredSum true calls with
+    | some n1, some n2 =>
+      some s!"ok n={n1 + n2} next={next.x},{next.y} bb={fmtRect (TextLayout.boundingBox f tx)} alloc=0"
+    | _, _ => none
+
 def handleScale (stream : String) (t : Toks) : Option String :=
   if stream.startsWith "scale.chk." then handleChk (stream.drop 10).toString t
   else if stream == "scale.adapter" then handleScaleAdapter t   -- `calls` jobs only (Driver/ScaleAdapter.lean)
   else if stream == "scale.shape" then scaleShape t
   else if stream == "scale.image" then scaleImage t
+  else if stream == "scale.text" then scaleText t
+  else if stream == "scale.reject" then
+    match t with
+    | "sub" :: t => scaleRejectSub t
+    | _ => none
   else none
 
 end EG.Driver
